@@ -23,6 +23,7 @@ func propC04(c *Ctx) {
 	c.rulePathVarTypes()
 	c.ruleDepCalls("C04-DEP-CALLS")
 	c.ruleShapeTags()
+	c.ruleRequiredArrays()
 }
 
 func (c *Ctx) ruleAccessorPair() {
